@@ -3,5 +3,6 @@ SPECIFICATION MCSpec
 INVARIANT OkOnlyIfNec
 INVARIANT C08Order
 INVARIANT C08Written
+INVARIANT C08Exit
 INVARIANT Emit
 CHECK_DEADLOCK FALSE
